@@ -1,5 +1,6 @@
 // Witness search for C14.1 (run by ./check against a scratch copy; integration test of `feos-core`).
-// `Parameter::binary_matrix_from_records` for 2-4 substances, identifier kinds name and CAS, every subset of the pairs
+// `Parameter::binary_matrix_from_records` for 2-4 substances, identifier kinds name and CAS (and identifiers that carry a name
+// only, looked up by name), every subset of the pairs
 // present, each stored in either orientation and in every list position: the entry (i, j) and the entry (j, i) must be
 // the stored record when exactly one record exists for the pair, and the default record when none exists; anything
 // else is printed as `WITNESS ...`.
@@ -18,15 +19,19 @@ impl Parameter for My {
     fn from_records(pure_records: Vec<PureRecord<P>>, binary_records: Option<Array2<B>>) -> Result<Self, ParameterError> { Ok(Self { pure_records, binary_records }) }
     fn records(&self) -> (&[PureRecord<P>], Option<&Array2<B>>) { (&self.pure_records, self.binary_records.as_ref()) }
 }
-fn ident(k: usize) -> Identifier { Identifier::new(Some(&format!("{k}00-0-{k}")), Some(&format!("substance{k}")), None, None, None, None) }
+/// with_cas = false: an identifier that carries a name only (no CAS number) - `Identifier`'s own `==` compares CAS numbers
+/// only, so such identifiers all compare equal although they name different substances
+fn ident(k: usize, with_cas: bool) -> Identifier { Identifier::new(if with_cas { Some(format!("{k}00-0-{k}")) } else { None }.as_deref(), Some(&format!("substance{k}")), None, None, None, None) }
 
 #[test]
 fn vx_witness_binary_matrix() {
     let (mut n_cases, mut n_bad) = (0, 0);
     for n in 2..=4usize {
-        let pure: Vec<PureRecord<P>> = (0..n).map(|k| PureRecord::new(ident(k), 1.0, P { a: k as f64 })).collect();
+      for with_cas in [true, false] {
+        let pure: Vec<PureRecord<P>> = (0..n).map(|k| PureRecord::new(ident(k, with_cas), 1.0, P { a: k as f64 })).collect();
         let pairs: Vec<(usize, usize)> = (0..n).flat_map(|i| (i + 1..n).map(move |j| (i, j))).collect();
         for opt in [IdentifierOption::Name, IdentifierOption::Cas] {
+            if !with_cas && matches!(opt, IdentifierOption::Cas) { continue; }
             // mask: which pairs are present; flip: which of them are stored the other way round; rot: list rotation
             for mask in 1u32..(1 << pairs.len()) {
                 for flip in 0u32..(1 << pairs.len()) {
@@ -36,7 +41,7 @@ fn vx_witness_binary_matrix() {
                         for (q, &(i, j)) in pairs.iter().enumerate() {
                             if mask & (1 << q) == 0 { continue; }
                             let (a, b) = if flip & (1 << q) != 0 { (j, i) } else { (i, j) };
-                            recs.push(BinaryRecord::new(ident(a), ident(b), B { b: 10.0 * (i + 1) as f64 + j as f64 }));
+                            recs.push(BinaryRecord::new(ident(a, with_cas), ident(b, with_cas), B { b: 10.0 * (i + 1) as f64 + j as f64 }));
                         }
                         let r = rot % recs.len();
                         recs.rotate_left(r);
@@ -57,5 +62,6 @@ fn vx_witness_binary_matrix() {
             }
         }
     }
+      }
     println!("explored: {n_cases} record lists, {n_bad} entries off");
 }
